@@ -730,6 +730,48 @@ theorem headEq_quant_eqMod {e : Env} {D : Nat → Bool} {b b' : Pat} (lzy : Bool
   rw [m_quant, m_quant]
   exact iter_head_eqMod _ _ hh h hb hb' lzy lo hi _ 0 st
 
+/-- a loop that iterates at most once: its successes are those of the body and "stop" -/
+theorem iter_hi_one (f : St → List St) (lzy : Bool) (lo : Nat) (fuel : Nat) (st : St) :
+    iter f lzy lo (some 1) (fuel + 1) 0 st =
+      if lzy = true then (if lo ≤ 0 then [st] else []) ++ (if lo ≤ 1 then f st else [])
+      else (if lo ≤ 1 then f st else []) ++ (if lo ≤ 0 then [st] else []) := by
+  have hng : canGo (some 1) 1 = false := by simp [canGo]
+  have hgo : canGo (some 1) 0 = true := by simp [canGo]
+  have hmore : (f st).flatMap (fun st' => if (st'.pos == st.pos && decide (lo ≤ 0 + 1)) = true then [st']
+        else iter f lzy lo (some 1) fuel (0 + 1) st') = if lo ≤ 1 then f st else [] := by
+    by_cases hlo : lo ≤ 1
+    · have : (fun st' : St => if (st'.pos == st.pos && decide (lo ≤ 0 + 1)) = true then [st']
+          else iter f lzy lo (some 1) fuel (0 + 1) st') = fun st' => [st'] := by
+        funext st'
+        rw [iter_of_not_canGo _ _ _ _ _ _ _ hng]
+        simp [hlo]
+      rw [this]; simp [hlo]
+    · have : (fun st' : St => if (st'.pos == st.pos && decide (lo ≤ 0 + 1)) = true then [st']
+          else iter f lzy lo (some 1) fuel (0 + 1) st') = fun _ => [] := by
+        funext st'
+        rw [iter_of_not_canGo _ _ _ _ _ _ _ hng]
+        simp [hlo]
+      rw [this]; simp [hlo]
+  simp only [iter, hgo, if_true, hmore]
+
+theorem eqMod_quant_hi_one {e : Env} {D : Nat → Bool} {d : Bool} {b b' : Pat} (lzy : Bool) (lo : Nat)
+    (h : EqMod e D d b b') : EqMod e D d (.quant lzy lo (some 1) b) (.quant lzy lo (some 1) b') := by
+  intro st
+  rw [m_quant, m_quant, iter_hi_one, iter_hi_one]
+  have := h st
+  simp only [live] at this ⊢
+  cases lzy
+  · simp only [Bool.false_eq_true, if_false, List.filter_append]
+    congr 1
+    split
+    · exact this
+    · rfl
+  · simp only [if_true, List.filter_append]
+    congr 1
+    split
+    · exact this
+    · rfl
+
 theorem bodyKills_sound {e : Env} {o : Oracle} (hs : o.Sound e) {x x' : Pat} {S : List Site}
     (h : bodyKills o x x' S = true) : Kills e (dead e S) x ∧ Kills e (dead e S) x' := by
   unfold bodyKills at h
@@ -753,9 +795,8 @@ theorem quantRes_sound {e : Env} {o : Oracle} (hs : o.Sound e) {d : Bool} {lzy :
       by_cases h3 : hi = some 1
       · subst h3
         simp only [if_true] at herr ⊢
-        obtain ⟨hce, hts⟩ := topOf_errs herr
-        obtain ⟨he, hk⟩ := close_errs hce
-        exact holds_top (headEq_quant_hi_one lzy lo ((hx he).headEq hk)) hts
+        have hb := hx herr
+        exact ⟨eqMod_quant_hi_one lzy lo hb.1, fun hh => headEq_quant_hi_one lzy lo (hb.headEq hh)⟩
       · simp only [h3, if_false] at herr ⊢
         cases d with
         | true =>
